@@ -340,7 +340,11 @@ def run_case(case, ctx):
         m2 = SP.clone(model)
         # the unused value may be of any kind, a sub-description or list included
         extra = vr.choice([1, 1, None, {}, {"zz_extra": 2}, [], [0], b"x", {"__ba": "01"}])
-        SP.node_at(m2, fr.path)["zz_extra"] = extra
+        # the surplus key under several spellings (a serialiser that is lenient towards, say, private-looking names
+        # would otherwise go unnoticed)
+        ename = vr.choice(["zz_extra", "zz_extra", "_zz_extra", "_", "__extra__", "0", ""])
+        SP.node_at(m2, fr.path)[ename] = extra
+        ctx.count("extra_key_name:" + (ename or "<empty>"))
         ctx.count("extra_key_value:" + ("scalar" if not isinstance(extra, (dict, list)) else type(extra).__name__))
         run = do_ser(R, prog["ops"], m2, types, pretype, None, False, explicit, build_types)
         expect_error(run, E.UnusedTargetError, "extra-key", where_of(fr.path))
